@@ -45,12 +45,15 @@ AllowedC14(e) ==
          /\ e.parsed = p /\ e.parsed_rev = p             \* text parses back; both card orders of a text parse equal
     [] e.op = "twin" ->     \* parsing depends on the text alone: a text, its suit-swapped twin, the text again
          /\ e.first = Pair(e.a, e.b) /\ e.then_twin = Pair(e.ta, e.tb) /\ e.again = Pair(e.a, e.b)
+    [] e.op = "text2" -> e.text = PairText(e.a, e.b)      \* formatting is a function of the pair, whatever was formatted before
+    [] e.op = "cpar" -> e.parsed = Pair(e.a, e.b)        \* a parse made while other threads parse other texts
+    [] e.op = "cparsum" -> e.parses > 0
     [] e.op = "route" ->    \* a pair value obtained through a rank pair, a token or a range is the canonical value of its cards
          /\ e.first < e.second                               \* the card that orders first comes first
          /\ e.eq_new = 1 /\ e.hash_eq = 1 /\ e.fx_eq = 1     \* equal to, and hashing like, CardPair::new of the same cards
     [] OTHER -> FALSE
 
-Allowed(e) == IF e.op \in {"pair", "twin", "route"} THEN AllowedC14(e) ELSE AllowedC13(e)
+Allowed(e) == IF e.op \in {"pair", "twin", "route", "text2", "cpar", "cparsum"} THEN AllowedC14(e) ELSE AllowedC13(e)
 
 K == 64
 Init == l = <<"root">>
